@@ -25,7 +25,7 @@ from pathlib import Path
 
 from src.core.base import BaseLintContext, BaseLintRule
 from src.core.constants import Language
-from src.core.linter_utils import has_file_content, load_linter_config
+from src.core.linter_utils import has_file_content, load_linter_config, project_relative_path
 from src.core.types import Violation
 from src.core.violation_utils import get_violation_line, has_python_noqa
 from src.linter_config.ignore import get_ignore_parser
@@ -126,7 +126,7 @@ class ConditionalVerboseRule(BaseLintRule):
             return None
 
         metadata = context.metadata
-        config_keys = ("print_statements", "print-statements", "improper-logging")
+        config_keys = ("print_statements", "print-statements", "improper_logging", "improper-logging")
 
         for key in config_keys:
             if key in metadata:
@@ -141,7 +141,8 @@ class ConditionalVerboseRule(BaseLintRule):
         if not context.file_path:
             return False
 
-        file_path = Path(context.file_path)
+        # Ignore patterns name places inside the project, however the path was spelled
+        file_path = Path(project_relative_path(context))
         return any(self._matches_pattern(file_path, pattern) for pattern in config.ignore)
 
     def _matches_pattern(self, file_path: Path, pattern: str) -> bool:
